@@ -1,5 +1,47 @@
-import SemVerif.Spec.Preds
-import SemVerif.Inventory
-/-! # Property C02 — theorems (under construction) -/
+import SemVerif.Props.C14
+/-!
+# Property C02 — a well-formed program is accepted
+
+`C02`: if the reference rule checker finds no violation at all (`WellFormedB p`) and the program is
+inside the documented domain (`LoopOKB p`), the run neither panics nor reports any error.
+Corollary of T1 (no violation ⇒ no first error) and C13 (no panic).
+-/
 namespace SemVerif
+
+theorem C02_errors (p : Program) (hwf : refCheck p = []) (hok : LoopOKB p = true) : (run p).errors = [] := by
+  rcases T1 p hok with ⟨he, _⟩ | ⟨_, _, v, _, hv, _⟩
+  · exact he
+  · rw [hwf] at hv; simp [firstEnf] at hv
+
+/-- **C02** — the output predicate holds on the model's result for every program -/
+theorem C02 (p : Program) : P_C02 p (run p) = [] := by
+  unfold P_C02
+  split
+  · rename_i h
+    simp only [Bool.and_eq_true, Bool.not_eq_true'] at h
+    obtain ⟨⟨hwf, hok⟩, hacc⟩ := h
+    have hwf' : refCheck p = [] := by unfold WellFormedB at hwf; simpa [List.isEmpty_iff] using hwf
+    have he := C02_errors p hwf' hok
+    have hp : (run p).panic = none := by
+      have := C13 p
+      unfold P_C13 at this
+      rw [hok] at this
+      cases hpp : (run p).panic with
+      | none => rfl
+      | some x => rw [hpp] at this; simp at this
+    unfold Result.accepted at hacc
+    rw [he, hp] at hacc
+    simp at hacc
+  · rfl
+
+/-- non-vacuity: the premises are satisfiable (a well-formed program with shadowing, a forward
+reference to a function, a nested block and a constant) — checked by evaluation -/
+example : WellFormedB
+    [.fn ⟨['m'], [(['x'], .prim .u8)], .prim .u8,
+      [.letB ⟨['x'], false, none, .mk (.var ['x']) (some (.plus, .mk (.var ['K']) none))⟩,
+       .ifS (.mk (.single (.mk (.lit (.bool true)) none)) (.ifb [.letB ⟨['y'], false, none, .mk (.call ['g'] [.mk (.var ['x']) none]) none⟩]) none none),
+       .ret (.mk (.var ['x']) none)]⟩,
+     .const ⟨['K'], .prim .u8, .last (.val (.u8 1))⟩,
+     .fn ⟨['g'], [(['a'], .prim .u8)], .prim .u8, [.ret (.mk (.var ['a']) none)]⟩] = true := by decide +kernel
+
 end SemVerif
